@@ -76,6 +76,38 @@ pub fn run(ctx: &Ctx) -> i32 {
             }
         }
     }));
+    // the whole character domain (quick: the Basic Multilingual Plane) in every role a character has in a destination, and in the metadata
+    let top: u64 = if ctx.thorough() { 0x11_0000 } else { 0x1_0000 };
+    let ua = merge(par_fold(top, Acc::new, |cp, acc| {
+        let Some(c) = char::from_u32(cp as u32) else { return };
+        for dest in [format!("/d/{}", c), format!("/{}/f", c), format!("/d/a{}b", c), format!("{}/f", c), format!("/d/f{}", c)] {
+            acc.evals += 1;
+            let case = || json!({"kind": "destination", "destination": dest, "code_point": format!("U+{:04X}", cp)});
+            match catch(|| try_build(&src, Ok(FileOptions::new(dest.clone())), none)) {
+                Err(p) => acc.viol(panic_violation("unicode-scalars", &p, case()).sig("arg", "destination").rank(cp)),
+                Ok(Err(k)) => acc.count(&format!("rejected: {}", k)),
+                Ok(Ok(_)) => {
+                    acc.nontrivial += 1;
+                    acc.count("accepted");
+                    if must_reject(&dest) {
+                        acc.viol(Violation::new("unicode-scalars", format!("destination {:?} cannot be split into a directory and a file name but was accepted", dest), case()).sig("clause", "accepted-unsplittable-destination").rank(cp));
+                    }
+                }
+            }
+        }
+        acc.evals += 1;
+        let t = format!("a{}b", c);
+        let case = || json!({"kind": "metadata", "every text argument": t, "code_point": format!("U+{:04X}", cp)});
+        if let Err(p) = catch(|| {
+            let _ = PackageBuilder::new(&t, &t, &t, &t, &t).description(&t).vendor(&t).url(&t).group(&t).packager(&t).release(&t).compression(none).build().map(|p| {
+                let mut o = vec![];
+                let _ = p.write(&mut o);
+            });
+        }) {
+            acc.viol(panic_violation("unicode-scalars", &p, case()).sig("arg", "metadata").rank(cp));
+        }
+    }));
+    let s1u = SubReport::new("unicode-scalars", "A", &format!("every Unicode scalar value below U+{:X} ({}) as a file name, a directory name, inside and at the end of a file name, in front of the first '/', and inside every text argument of the metadata setters: no panic; Err for destinations that cannot be split", top, if ctx.thorough() { "the whole domain" } else { "the Basic Multilingual Plane; the thorough tier covers the whole domain" }), ua);
     let s1 = SubReport::new("destinations", "A", &format!("every sequence of ≤ {} tokens over {:?} ({} strings) as FileOptions destination through with_file + build; oracle: no panic; Err when the string does not start with '/' or './', has no name component or ends in '..'; non-trivial = accepted", maxlen, DTOK, n), a);
 
     // ---- the same payload path named twice (two with_file calls), in its two spellings './P' and '/P'
@@ -455,7 +487,7 @@ pub fn run(ctx: &Ctx) -> i32 {
     }
     ctx.finish(
         "exploration",
-        vec![s1, s1b, s1c, s1d, s1e, s1f, s2, s3, s4, s5],
+        vec![s1, s1u, s1b, s1c, s1d, s1e, s1f, s2, s3, s4, s5],
         &[
             "which in-between destinations (e.g. '/a/.', '/../a') are accepted is not specified; they must only not panic and, if accepted, give a usable package",
             "timestamp arguments of non-integer types (chrono dates before 1970) are outside the statement's 'strings and numbers'",
